@@ -121,6 +121,7 @@ def truncate(args):
     designs = args['designs']          # e.g. [0,1,1,2]: individuals 1 and 2 share a design
     n = len(designs)
     import artap.operators as O
+    stubs.install((O, 'math', stubs.math_shim))
     from artap.individual import Individual
 
     def body(ctx):
